@@ -47,15 +47,15 @@ def run_one(m, tier, suite):
         for sub in [m] + m.get("also", []):
             apply(root, dict(m, **sub) if sub is not m else m)
         pkg = "./" + os.path.dirname(m["file"]) + "/..."
-        b = subprocess.run(["go", "build", "./..."], cwd=root, env=ENV, stdout=subprocess.PIPE, stderr=subprocess.STDOUT, text=True)
+        b = subprocess.run(["go", "build", "./..."], cwd=root, env=ENV, stdout=subprocess.PIPE, stderr=subprocess.STDOUT, text=True, errors="replace")
         if b.returncode != 0:
             return "NOCOMPILE", b.stdout[-500:]
         suite_res = "-"
         if suite:
-            t = subprocess.run(["go", "test", "-vet=off", "-count=1", pkg], cwd=root, env=ENV, stdout=subprocess.PIPE, stderr=subprocess.STDOUT, text=True)
+            t = subprocess.run(["go", "test", "-vet=off", "-count=1", pkg], cwd=root, env=ENV, stdout=subprocess.PIPE, stderr=subprocess.STDOUT, text=True, errors="replace")
             suite_res = "suite-pass" if t.returncode == 0 else "suite-FAIL"
         env = dict(ENV, VERIF_REPO=root)
-        r = subprocess.run([os.path.join(VERIF, "run"), m["prop"], tier], cwd=VERIF, env=env, stdout=subprocess.PIPE, stderr=subprocess.STDOUT, text=True)
+        r = subprocess.run([os.path.join(VERIF, "run"), m["prop"], tier], cwd=VERIF, env=env, stdout=subprocess.PIPE, stderr=subprocess.STDOUT, text=True, errors="replace")
         expect = 0 if m.get("equivalent") else 1
         verdict = "ok" if r.returncode == expect else "MISSED" if expect == 1 else "FALSE-ALARM"
         if r.returncode == 2:
@@ -66,8 +66,8 @@ def run_one(m, tier, suite):
             for l in r.stdout.splitlines():
                 if l.startswith("VIOLATION"):
                     path = l.split("replay=")[1].strip()
-                    rr = subprocess.run([os.path.join(VERIF, "run"), m["prop"], "--replay", path], cwd=VERIF, env=env, stdout=subprocess.PIPE, stderr=subprocess.STDOUT, text=True)
-                    rc = subprocess.run([os.path.join(VERIF, "run"), m["prop"], "--replay", path], cwd=VERIF, env=ENV, stdout=subprocess.PIPE, stderr=subprocess.STDOUT, text=True)
+                    rr = subprocess.run([os.path.join(VERIF, "run"), m["prop"], "--replay", path], cwd=VERIF, env=env, stdout=subprocess.PIPE, stderr=subprocess.STDOUT, text=True, errors="replace")
+                    rc = subprocess.run([os.path.join(VERIF, "run"), m["prop"], "--replay", path], cwd=VERIF, env=ENV, stdout=subprocess.PIPE, stderr=subprocess.STDOUT, text=True, errors="replace")
                     if rr.returncode != 1 or rc.returncode != 0:
                         verdict += " REPLAY-MISMATCH(mut=%d clean=%d)" % (rr.returncode, rc.returncode)
                     os.remove(path)
